@@ -689,7 +689,7 @@ def run(ctx):
         regressions(ctx, pgpy, d)
         # exhaustive: every history of depth <= D over the alphabet after the preamble
         plan = [('full', 1), ('small', 2), ('core', 3)] if ctx.quick else [('full', 1), ('full', 2), ('small', 3), ('core', 4)]
-        budget = ctx.n(30.0, 420.0)
+        budget = ctx.n(30.0, 400.0)
         import time
         t0 = time.time()
         for size, depth in plan:
